@@ -2287,6 +2287,22 @@ def c10_rules(ctx):
         gm = ctx.sites(f, PA + '::get_page_mut', exact=1)
         ctx.guarded(f, gm, [true_of(PA + '::uncommitted')])
         ctx.must_pass(f, lc + bc, what='every success path computes a leaf or branch checksum')
+        # every uncommitted child IS finalized: on the true edge of the in-loop uncommitted() test the
+        # recursion cannot be skipped before the loop advances or the function returns
+        nxt = [c for c in f.calls if c.matches('Iterator::next')]
+        unc = ctx.sites(f, PA + '::uncommitted', exact=2)
+        e_false = core.guard_edges(f, [false_of(PA + '::uncommitted')])
+        inloop = []
+        for u in unc:
+            if any(u.bb in core.reach(f, start=(n.bb, len(f.blocks[n.bb]['s']) - 1))['term'] for n in nxt):
+                inloop.append(u)
+        ctx.check(len(inloop) == 1 and len(nxt) >= 1, 'shape|%s|in-loop-uncommitted' % f.path, 'one uncommitted() test inside the child loop', f, f.line)
+        for u in inloop:
+            r1 = core.reach(f, start=(u.bb, u.idx), cut_edges=e_false, cut_blocks={p_.bb for p_ in rec} | core.error_blocks(f))
+            skipped = [n for n in nxt if n.bb in r1['term']] or [rb for rb in f.ret_blocks() if rb in r1['term']]
+            ctx._ob(not skipped, ctx.sample('must-pass', f, u.line, 'an uncommitted child is always finalized before the loop advances'))
+            if skipped:
+                ctx.violate('must-pass|%s|dirty-child-skipped' % f.path, 'an uncommitted child page can be skipped by the checksum finalisation (the loop advances on the uncommitted() true edge without the recursive call): a DEFERRED child checksum would be committed', f, u.line)
     f = ctx.fn('UntypedBtreeMut::finalize_dirty_checksums')
     if f is not None:
         h = ctx.sites(f, 'UntypedBtreeMut::finalize_dirty_checksums_helper', exact=1)
